@@ -213,6 +213,66 @@ def check_roundtrip(chk, fails, dis, stats):
             stats["distinct_nontrivial"] += 1
 
 
+def check_observed_around_arithmetic(chk, fails, dis, stats):
+    """a variable keeps the value of its text wherever it is observed: before and after being an operand of + or -,
+    in transaction metadata and in account metadata; the result of the operation is the exact sum / difference"""
+    rng = random.Random("C13arith-%d" % chk.seed)
+    import tricky
+    cases, exps = [], []
+    for i in range(chk.size(300, 4000)):
+        mon = rng.random() < 0.6
+        a = rng.choice(tricky.EDGE_INTS + [0, 1, 7, 10 ** 30, 25 * 10 ** 18]) * rng.choice([1, 1, -1])
+        b = rng.choice(tricky.EDGE_INTS + [0, 1, 5, 2 ** 64]) * rng.choice([1, 1, -1])
+        op = rng.choice(["+", "+", "-"])
+        res = a + b if op == "+" else a - b
+        if mon:
+            asset = rng.choice(["USD", "ETH/18", "COIN"])
+            ty, ta, tb, tr = "monetary", "%s %d" % (asset, a), "%s %d" % (asset, b), "%s %d" % (asset, res)
+        else:
+            ty, ta, tb, tr = "number", str(a), str(b), str(res)
+        right = "$q" if rng.random() < 0.6 else ("$p" if rng.random() < 0.3 else None)
+        if right is None:
+            right, tb2 = (("[%s %d]" % (asset, b)) if mon else str(b)), None
+            if (not mon and b < 0) or not (-2 ** 63 <= b < 2 ** 63):
+                right = "$q"       # a literal beyond a machine integer is the known finding number-literal-out-of-range
+        if right == "$p":
+            res = a + a if op == "+" else 0
+            tr = ("%s %d" % (asset, res)) if mon else str(res)
+        script = ("vars {\n  %s $p\n  %s $q\n}\n" % (ty, ty) +
+                  "set_tx_meta(\"before\", $p)\nset_account_meta(@acc, \"before\", $p)\n" +
+                  "set_tx_meta(\"res\", $p %s %s)\nset_account_meta(@acc, \"res\", $p %s %s)\n" % (op, right, op, right) +
+                  "set_tx_meta(\"after\", $p)\nset_account_meta(@acc, \"after\", $p)\nset_account_meta(@acc, \"other\", $q)\n")
+        cases.append({"id": i, "op": "exec", "script": script, "vars": {"p": ta, "q": tb}, "balances": {}, "meta": {},
+                      "store": "exact", "failAt": -1})
+        exps.append({"before": ta, "after": ta, "res": tr, "other": tb})
+    gos = runner.run_go(cases)
+    mods = P.run_model(cases, gos)
+    stats["evaluations"] += len(cases)
+    for c, e, o, m in zip(cases, exps, gos, mods):
+        go = o.get("go")
+        if go is None:
+            continue
+        if m is not None:
+            stats["model_comparisons"] += 1
+            d = runner.diff_exec(go, m, ["txMeta", "accMeta", "errKind", "errPayload"])
+            if d:
+                dis.append((c, go, m, d))
+        if go["outcome"] != "ok":
+            fails.append((c, go, m, ["arithmetic on well-typed values failed: %s %s" % (go.get("errKind"), go.get("errPayload"))]))
+            continue
+        why = []
+        for k in ("before", "res", "after"):
+            if go["txMeta"][k][1] != e[k]:
+                why.append("transaction metadata %r is %r, the value written was %r" % (k, go["txMeta"][k][1], e[k]))
+        for k in ("before", "res", "after", "other"):
+            if go["accMeta"]["acc"][k] != e[k]:
+                why.append("account metadata %r is %r, the value written was %r" % (k, go["accMeta"]["acc"][k], e[k]))
+        if why:
+            fails.append((c, go, m, why[:3]))
+        else:
+            stats["distinct_nontrivial"] += 1
+
+
 def run(chk):
     broken = chk.obligations(REGISTRY["C13"])
     runner.build_harness()
@@ -220,6 +280,7 @@ def run(chk):
     fails, dis = [], []
     check_portions(chk, fails, dis, stats)
     check_roundtrip(chk, fails, dis, stats)
+    check_observed_around_arithmetic(chk, fails, dis, stats)
     for c, go, m, why in fails[:10]:
         chk.violation("oracle", case=c, go=go, model=m, oracle=why)
     if not fails:
